@@ -87,6 +87,10 @@ var Classes = []string{
 	"stream:turn-error", "stream:turn-panic", "stream:turn-none", "stream:turn-emit2", "stream:turn-finish",
 	"stream:param-mismatch", "stream:proto-refused",
 	"stream:hdr-fail", "stream:ungob", "stream:late",
+	// the handler fails with a *vgirpc.RpcError whose Type is empty: bare, wrapped with %w, carrying only a Kind
+	"unary:untyped-bare", "unary:untyped-wrapped", "unary:untyped-kind",
+	"stream:init-untyped-bare", "stream:init-untyped-wrapped", "stream:init-untyped-kind",
+	"stream:turn-untyped-bare", "stream:turn-untyped-wrapped", "stream:turn-untyped-kind",
 	// HTTP only
 	"stream:narrow", "unary:cap", "stream:cap", "unary:sticky-error", "stream:sticky-error", "stream:bad-token", "stream:no-token",
 }
@@ -112,6 +116,28 @@ func stripException(ls []svc.Log) []svc.Log {
 		}
 	}
 	return out
+}
+
+// UntypedClasses are the classes whose handler error is an RpcError with an
+// empty Type (a failed call all the same: the EXCEPTION batch is on the wire).
+var UntypedClasses = []string{"unary:untyped-bare", "unary:untyped-wrapped", "unary:untyped-kind",
+	"stream:init-untyped-bare", "stream:init-untyped-wrapped", "stream:init-untyped-kind",
+	"stream:turn-untyped-bare", "stream:turn-untyped-wrapped", "stream:turn-untyped-kind"}
+
+// untypedErr scripts &vgirpc.RpcError{Type: "", ...}: "bare" returned as is,
+// "wrapped" inside fmt.Errorf("...: %w"), "kind" with only Kind set.
+func untypedErr(class string, rg *rand.Rand) svc.ErrSpec {
+	e := svc.ErrSpec{Kind: "rpc", Type: "", Msg: fmt.Sprintf("untyped failure %d", rg.IntN(1000))}
+	switch {
+	case strings.HasSuffix(class, "-wrapped"):
+		e.Kind = "wrapped-rpc"
+	case strings.HasSuffix(class, "-kind"):
+		e.EKind = []string{"some_kind", "quota_exceeded"}[rg.IntN(2)]
+		if rg.IntN(2) == 0 {
+			e.Msg = ""
+		}
+	}
+	return e
 }
 
 func genCall(rg *rand.Rand, hidx, j int, class string, cfg Cfg) Call {
@@ -144,9 +170,14 @@ func genCall(rg *rand.Rand, hidx, j int, class string, cfg Cfg) Call {
 			c.Args.Tag = strings.Repeat("cap-", MaxResp/3)
 		case "unary:sticky-error":
 			c.Sticky = true
+		case "unary:untyped-bare", "unary:untyped-wrapped", "unary:untyped-kind":
+			act = svc.ActError
 		}
 		c.Script = svc.GenUnary(rg, id, act, 3)
 		c.Script.ULogs = stripException(c.Script.ULogs)
+		if strings.HasPrefix(class, "unary:untyped-") {
+			c.Script.UErr = untypedErr(class, rg)
+		}
 		return c
 	}
 	c.Method = svc.StreamMethods[rg.IntN(len(svc.StreamMethods))]
@@ -182,6 +213,15 @@ func genCall(rg *rand.Rand, hidx, j int, class string, cfg Cfg) Call {
 		nIn = 1 + rg.IntN(3)
 	case "stream:init-error":
 		o.InitAct = svc.ActError
+	case "stream:init-untyped-bare", "stream:init-untyped-wrapped", "stream:init-untyped-kind":
+		o.InitAct = svc.ActError
+	case "stream:turn-untyped-bare", "stream:turn-untyped-wrapped", "stream:turn-untyped-kind":
+		o.Turns = 1 + rg.IntN(5)
+		if nIn < o.Turns {
+			nIn = o.Turns
+		}
+		o.FailAt = rg.IntN(o.Turns)
+		o.FailAct = svc.ActError
 	case "stream:init-panic":
 		o.InitAct = svc.ActPanic
 	case "stream:init-nil":
@@ -247,6 +287,12 @@ func genCall(rg *rand.Rand, hidx, j int, class string, cfg Cfg) Call {
 		c.IVariant = ""
 	}
 	c.Script = svc.GenStream(rg, id, o)
+	switch {
+	case strings.HasPrefix(class, "stream:init-untyped-"):
+		c.Script.InitErr = untypedErr(class, rg)
+	case strings.HasPrefix(class, "stream:turn-untyped-"):
+		c.Script.Turns[o.FailAt].Err = untypedErr(class, rg)
+	}
 	if class == "stream:cap" {
 		c.Script.Turns[rg.IntN(2)].Rows = 4000
 	}
